@@ -7,6 +7,8 @@ MCConfigsFull ==
       \cup [ck : {"bad", "absent"}, cv : {0}, pk : {"bad", "absent"}, pv : {0}, ws : {0}, we : {0}, cm : {"expr"}]
       \cup [ck : {"int"}, cv : {-1, 2}, pk : {"int"}, pv : {0, 1}, ws : {0, 2}, we : {0, 3}, cm : {"none"}]
       \cup [ck : {"num"}, cv : {0, 1, 2}, pk : {"num"}, pv : {0, 1}, ws : {0}, we : {0}, cm : {"none", "expr"}]
+      \cup [ck : {"odd", "int"}, cv : {-1}, pk : {"odd"}, pv : {0}, ws : {0}, we : {0}, cm : {"none"}]
+      \cup [ck : {"odd"}, cv : {0}, pk : {"absent", "int"}, pv : {0}, ws : {0}, we : {0}, cm : {"none"}]
 
 MCConfigsSmall ==
     [ck : {"int"}, cv : {-2, -1, 1, 2}, pk : {"int"}, pv : {0, 2}, ws : {0}, we : {0}, cm : {"expr"}]
@@ -15,7 +17,10 @@ MCConfigsSmall ==
             [ck |-> "bad", cv |-> 0, pk |-> "absent", pv |-> 0, ws |-> 0, we |-> 0, cm |-> "none"],
             [ck |-> "absent", cv |-> 0, pk |-> "bad", pv |-> 0, ws |-> 0, we |-> 0, cm |-> "none"],
             [ck |-> "bad", cv |-> 0, pk |-> "bad", pv |-> 0, ws |-> 0, we |-> 0, cm |-> "none"],
-            [ck |-> "int", cv |-> -1, pk |-> "bad", pv |-> 0, ws |-> 0, we |-> 0, cm |-> "none"]}
+            [ck |-> "int", cv |-> -1, pk |-> "bad", pv |-> 0, ws |-> 0, we |-> 0, cm |-> "none"],
+            \* "odd": given in code as something that is no number at all (None, a list, infinity): the default, like "bad"
+            [ck |-> "odd", cv |-> 0, pk |-> "absent", pv |-> 0, ws |-> 0, we |-> 0, cm |-> "none"],
+            [ck |-> "int", cv |-> -1, pk |-> "odd", pv |-> 0, ws |-> 0, we |-> 0, cm |-> "none"]}
 
 (* condition-heavy settings (C10) *)
 MCConfigsCond ==
